@@ -18,12 +18,13 @@ SAMPLE = ("gtree\n├── cmd\n│   └── gtree\n│       └── main
 
 def snap_dir(root):
     out = {}
-    for dp, dns, fns in os.walk(root):
+    broot = os.fsencode(root)
+    for dp, dns, fns in os.walk(broot):
         for d in dns:
-            out[os.path.relpath(os.path.join(dp, d), root).encode()] = "d"
+            out[os.path.relpath(os.path.join(dp, d), broot)] = "d"
         for f in fns:
             p = os.path.join(dp, f)
-            out[os.path.relpath(p, root).encode()] = "e" if os.path.getsize(p) == 0 else "f"
+            out[os.path.relpath(p, broot)] = "e" if os.path.getsize(p) == 0 else "f"
     return out
 
 
@@ -64,7 +65,7 @@ def run_cli(cli, args, stdin_bytes, stdout_mode, pre):
 def run(ck, rng):
     exe = build_godriver()
     cli = build_cli()
-    n = 130 if ck.tier == "quick" else 3000
+    n = 400 if ck.tier == "quick" else 6000
     scen = []
     # template | output
     rc, tmpl, err, _, _ = run_cli(cli, ["template"], b"", "pipe", [])
@@ -89,7 +90,10 @@ def run(ck, rng):
         if massive:
             items = merged_items(items)[0]
         doc = spell(items, gen_spelling(rng, items, allow_heading=not massive))
-        if rng.random() < 0.2:
+        if kind == "output" and not massive and rng.random() < 0.25:
+            # valid roots followed by a malformed one: the library has already written the earlier trees when it fails
+            doc = doc.rstrip(b"\r\n") + b"\n" + rng.choice([b"- late\n      - jump\n", b"- late\n  -\n", b"- late\n  x no bullet\n"])
+        elif rng.random() < 0.2:
             from mutate import mutate
             doc = mutate(rng, doc)
             if massive and doc.count(b"\n-") + doc.count(b"\n*") + doc.count(b"\n+") + doc.count(b"\n#") > 0:
@@ -142,7 +146,8 @@ def run(ck, rng):
         else:
             base = rng.choice(["output", "mkdir", "verify", "template"])
             args = rng.choice([[base, "stray"], [base, "--no-such-flag"], ["output", "--massive-timeout", "0s"], ["output", "-mt", "-1s"],
-                               [base, "--file"], ["nosuchcommand"]])
+                               [base, "--file"], ["nosuchcommand"], [base, ""], [base, "", "x"], [base, " "], [base, "-", "-"],
+                               ["mkdir", "--dry-run", ""], ["verify", "--strict", "stray"]])
             expect_usage_err = True
             if args == ["nosuchcommand"]:
                 continue   # urfave/cli prints help for an unknown command name; not part of the claim
@@ -197,7 +202,7 @@ def run(ck, rng):
             if stdout_mode == "pipe":
                 if (rc == 0) != lib_ok:
                     bad = "exit status %d but the library returned %s" % (rc, lres[0])
-                elif want_out is not None and out != want_out and not (not lib_ok and kind == "output"):
+                elif want_out is not None and out != want_out and not massive:
                     bad = "stdout differs from what the library writes"
                 elif rc != 0 and not err.strip():
                     bad = "failure without a diagnostic on stderr"
